@@ -82,13 +82,13 @@ func init() {
 	reg("C02", "R", 60*time.Second, 15*time.Minute)
 	reg("C03", "S", 60*time.Second, 15*time.Minute)
 	reg("C04", "R", 60*time.Second, 15*time.Minute)
-	reg("C05", "R", 90*time.Second, 15*time.Minute)
-	reg("C06", "R", 90*time.Second, 15*time.Minute)
+	reg("C05", "R", 120*time.Second, 15*time.Minute)
+	reg("C06", "R", 120*time.Second, 15*time.Minute)
 	reg("C07", "R", 60*time.Second, 15*time.Minute)
 	reg("C08", "S", 60*time.Second, 15*time.Minute)
 	reg("C09", "S", 60*time.Second, 15*time.Minute)
 	reg("C10", "S", 60*time.Second, 15*time.Minute)
-	reg("C11", "S", 60*time.Second, 15*time.Minute)
+	reg("C11", "S", 90*time.Second, 15*time.Minute)
 	reg("C12", "R", 60*time.Second, 15*time.Minute)
 	reg("C13", "R", 60*time.Second, 15*time.Minute)
 	reg("C14", "R", 60*time.Second, 15*time.Minute)
